@@ -294,6 +294,7 @@ func (fr *frame) execInstr(in ssa.Instruction, st *State) {
 		fr.safety(st, "nil-map-write", operandName(x.Map), Not(Eq(m, Nil)), x.Pos())
 		fr.hashable(st, fr.val(x.Key), mt.Key(), x.Pos())
 		fr.atCall("mapupdate:"+sourceName(x.Map), st, x.Pos(), nil, []T{fr.val(x.Key), fr.val(x.Value)}, x)
+		c.traceCall("mapupdate:"+sourceName(x.Map), st) // calls("mapupdate:<map>") counts the writes
 		c.mapStore(st, m, mt, fr.val(x.Key), fr.val(x.Value))
 	case *ssa.MakeMap:
 		mt := under(x.Type()).(*types.Map)
